@@ -113,3 +113,32 @@ def node_line(n):
     if isinstance(l, list):
         return l[0]
     return l
+
+
+def _kind(v):
+    if isinstance(v, bool):
+        return "bool"
+    if isinstance(v, int):
+        return "int"
+    if isinstance(v, float):
+        return "float"
+    if isinstance(v, (H.S, H.V)):
+        return v.path if isinstance(v, H.S) else v.path.rsplit("::", 1)[0]
+    return type(v).__name__
+
+
+def same_product(got, want):
+    """does `got` carry the components of the tuple `want`?  A function that returns `(days, time)` may come to return a small
+    record `BalancedTime { days, time }` instead: a record with as many fields as the tuple has items, whose fields are of
+    pairwise different kinds, is compared component by component (matched by kind); a tuple is compared as it is."""
+    if not isinstance(want, H.T):
+        return got == want
+    if isinstance(got, H.T):
+        return got == want
+    if isinstance(got, H.S) and len(got.fields) == len(want.items):
+        wk = [_kind(x) for x in want.items]
+        gk = [_kind(v) for _, v in got.fields]
+        if len(set(wk)) == len(wk) and sorted(wk) == sorted(gk) and got.path not in wk:
+            by = {_kind(v): v for _, v in got.fields}
+            return all(by[k] == x for k, x in zip(wk, want.items))
+    return False
